@@ -48,8 +48,9 @@ fn has_step(steps: &[Step], f: &dyn Fn(&Step) -> bool) -> bool {
 pub fn check(c: &Case3, known: &Known, hazard: bool) -> Outcome {
     let (mut out, det) = c01::judge(&c.base, known);
     if hazard {
-        if let Verdict::Fail(..) = &out.verdict {
-            if let Some((id, what)) = c01::attribute(&c.base.flags, known) {
+        if let Verdict::Fail(_, detail) = &out.verdict {
+            let failure = detail.get("error").and_then(|e| e.as_str()).unwrap_or("").to_string();
+            if let Some((id, what)) = c01::attribute_with(&c.base.flags, known, &failure) {
                 out.verdict = Verdict::Known(id, what);
             }
         }
